@@ -469,3 +469,14 @@ Fixpoint web_errors_from (bit : Z) (names : list string) (mask : Z) : list strin
               ++ web_errors_from (bit + 1) r mask
   end.
 Definition web_errors (mask : Z) : list string := web_errors_from 0 filter_names mask.
+
+(* a SHARED catcher, correctly locked: printing and taking are separate critical sections on the list *)
+Definition cat_print (m : string) : list (instr (list string) (list string)) :=
+  [fun (s l : list string) => ((s ++ [m])%list, l)].
+Definition cat_take : list (instr (list string) (list string)) := [fun (s _ : list string) => (@nil string, s)].
+Definition cat_threads (i : nat) : ath (list string) (list string) :=
+  match i with
+  | O => {| a_loc := []; a_todo := [cat_print "Focus expression matched no samples"; cat_take] |}
+  | S O => {| a_loc := []; a_todo := [cat_take] |}
+  | _ => {| a_loc := []; a_todo := [] |}
+  end.
